@@ -29,6 +29,7 @@ pub fn dispatch(mode: &str, kind: &str, _input: Option<&Value>) -> Option<Value>
         "resume_no_rewrite" => resume_no_rewrite,
         "determinism_replay" => determinism_replay,
         "delete_unsorted" => delete_unsorted,
+        "block_write_fails" => block_write_fails,
         _ => return None,
     };
     if mode != "search" && mode != "replay" {
@@ -260,6 +261,69 @@ fn resume_no_rewrite() -> Result<Option<Value>, String> {
                     format!("the resumed backup wrote {} blocks ({} block files now, {} after an uninterrupted run)", stats.written_blocks, now, all_blocks),
                     "0 blocks written: everything the interrupted run stored is reused",
                     "a backup resumed after an interruption stored again content that was already in the archive");
+            }
+        }
+        Ok(None)
+    })
+}
+
+// ---------------------------------------------------------------------------------------------- C04
+/// The write of one data block is made to fail without any hook (a DIRECTORY is pre-created at the block's path, whose
+/// name is the BLAKE2b hash of the victim file's bytes).  Then: the backup must not crash; if it reports complete success
+/// (Ok and no error counted) every file restores exactly from a freshly opened archive; in any case every file that IS
+/// recorded restores exactly (never a dangling reference), and the earlier version is untouched.
+fn block_write_fails() -> Result<Option<Value>, String> {
+    let tmp = tempfile::tempdir().map_err(|e| e.to_string())?;
+    let src = tmp.path().join("src");
+    write_tree(&src, &[("a", 400), ("b", 500)])?;
+    let apath = tmp.path().join("archive");
+    let rt = tokio::runtime::Runtime::new().map_err(|e| e.to_string())?;
+    rt.block_on(async {
+        let opts = || BackupOptions { small_file_cap: 0, ..BackupOptions::default() };
+        let archive = Archive::create_path(&apath).await.map_err(|e| e.to_string())?;
+        conserve::backup(&archive, &src, &opts(), Arc::new(VoidMonitor)).await.map_err(|e| e.to_string())?;
+        write_tree(&src, &[("victim", 700), ("w", 300)])?;
+        let victim_bytes = std::fs::read(src.join("victim")).map_err(|e| e.to_string())?;
+        let hex = conserve::BlockHash::hash_bytes(&victim_bytes).to_string();
+        std::fs::create_dir_all(apath.join("d").join(&hex[..3]).join(&hex)).map_err(|e| e.to_string())?;
+        let archive = Archive::open_path(&apath).await.map_err(|e| e.to_string())?;
+        let monitor = TestMonitor::arc();
+        let res = conserve::backup(&archive, &src, &opts(), monitor.clone()).await;
+        let reported = match &res { Ok(st) => st.errors + monitor.take_errors().len(), Err(_) => 1 };
+        drop(archive);
+        let archive = Archive::open_path(&apath).await.map_err(|e| e.to_string())?;
+        // the earlier version is untouched
+        let d0 = tmp.path().join("r0");
+        let m0 = TestMonitor::arc();
+        let o0 = RestoreOptions { band_selection: BandSelectionPolicy::Specified(BandId::zero()), ..RestoreOptions::default() };
+        conserve::restore(&archive, &d0, o0, m0.clone()).await.map_err(|e| e.to_string())?;
+        if !m0.take_errors().is_empty() || !d0.join("a").exists() || !d0.join("b").exists() {
+            return found("block_write_fails", json!({}), "b0000 no longer restores cleanly".into(), "earlier versions untouched", "a failed block write harmed an earlier version");
+        }
+        if res.is_ok() {
+            let d1 = tmp.path().join("r1");
+            let m1 = TestMonitor::arc();
+            let o1 = RestoreOptions { band_selection: BandSelectionPolicy::Specified(BandId::new(&[1])), ..RestoreOptions::default() };
+            let rr = conserve::restore(&archive, &d1, o1, m1.clone()).await;
+            let rerrs = m1.take_errors();
+            for name in ["a", "b", "victim", "w"] {
+                let want = std::fs::read(src.join(name)).map_err(|e| e.to_string())?;
+                match std::fs::read(d1.join(name)) {
+                    Ok(got) if got == want => {}
+                    Ok(got) if got.is_empty() && !rerrs.is_empty() && reported > 0 => {}
+                    Err(_) if reported > 0 && rerrs.is_empty() => {} // skipped with an error at backup time
+                    other => {
+                        return found("block_write_fails", json!({"failing_block": hex, "file": name}),
+                            format!("backup reported {reported} error(s); restore of the new version: {:?}, {} restore error(s); /{name} came back as {:?} bytes",
+                                rr.is_ok(), rerrs.len(), other.as_ref().map(|g| g.len()).ok()),
+                            "every recorded file restores exactly; a skipped file is reported at backup time",
+                            "a storage error during backup produced a version that records a file it cannot restore (dangling reference or false success)");
+                    }
+                }
+            }
+            if reported == 0 {
+                return found("block_write_fails", json!({"failing_block": hex}), "backup reported complete success although a block write failed".into(),
+                    "an error is reported", "a failed block write was reported as complete success");
             }
         }
         Ok(None)
